@@ -162,7 +162,7 @@ func c14startNode(reg *c14reg, name gen.Atom, port uint16) (gen.Node, error) {
 	o.Network.Cookie = "c14-cookie"
 	o.Log.DefaultLogger.Disable = true
 	o.Log.Level = gen.LogLevelDisabled
-	if os.Getenv("C14_DEBUG") != "" {
+	if os.Getenv("C14_TRACE") != "" { // debugging aid: node logs on stdout
 		o.Log.DefaultLogger.Disable = false
 		o.Log.Level = gen.LogLevelTrace
 	}
@@ -920,33 +920,6 @@ func c14Nodes(c *Ctx) {
 		return res.setupErr == ""
 	}
 	rounds := c.N(1, 6)
-	if os.Getenv("C14_DEBUG") == "stale" {
-		for i := 0; i < 4; i++ {
-			p, err := newC14pair(true)
-			if err != nil {
-				panic(err)
-			}
-			fmt.Println("=========== stale", i)
-			c14calls(c, p)
-			c14stale(c, p)
-			fmt.Printf("=========== result %v %v\n", r.Distribution, r.Violations)
-			p.stop()
-		}
-		return
-	}
-	if os.Getenv("C14_DEBUG") != "" {
-		p, err := newC14pair(false)
-		if err != nil {
-			panic(err)
-		}
-		for i := 0; i < 6; i++ {
-			fmt.Println("=========== scenario", i)
-			res := c14runScenario(p, c14Scen{"pid", "monitor", "cutB", false})
-			fmt.Printf("=========== result %+v\n", res)
-		}
-		p.stop()
-		return
-	}
 	for round := 0; round < rounds; round++ {
 		for _, distinct := range []bool{true, false} {
 			p, err := newC14pair(distinct)
